@@ -416,27 +416,35 @@ Proof.
     destruct (MT_lookup _ nm_ANALOG nm_USED KInt1 (KF_MT _ _ _ _ HK)) as [p [Lp _]]; [in_mand|].
     destruct (lookup_inv _ _ _ _ Lp) as [gi2 [gr [pi [Gi _]]]]. rewrite Gi. split; [discriminate|]. intros a _. exact HK. }
   intros gi2.
-  (* number of channels *)
-  eapply h_bind.
-  { instantiate (1 := fun nan s => KF [] pr L2 s /\ nan = na). rewrite Fs0.
-    eapply h_bind; [apply (h_strs_of [] pr nm_ANALOG nm_LABELS L2); in_mand|]. intros l.
-    apply h_ret. intros s [HK [R _]]. split; [exact HK|].
-    assert (I : In (AL lA) L2) by (unfold L2, RA; cbn [In]; auto 10).
-    rewrite (Vstr_read _ _ _ _ (KF_holds _ _ _ _ _ HK I)) in R. injection R as <-.
-    apply wrap64_small. unfold two64. fold na. lia. }
-  intros nan. apply h_pre_pure. intros ->.
-  (* block 3: ANALOG *)
   set (RP := PN np :: PD np :: PL (lP ++ nP) :: PU np :: FR0 :: X).
   set (L3 := AN na :: AO na :: AS na :: AD na :: AL (lA ++ nA) :: AU na :: RP).
-  apply h_unassoc. eapply h_bind.
-  { instantiate (1 := fun _ => KF [] pr L3). fold (analogs_block s0 nA na). destruct nA as [|n1 nA'].
-    - assert (E : na = nlen lA) by (unfold na, nlen; cbn [length]; lia).
-      eapply h_conseq; [apply (block_analogs_noop pr s0 [] na L2); unfold L2, RA; rewrite E; cbn [In]; auto 10|intros s HK; exact HK|].
-      intros a s HK. apply (KF_incl _ _ _ _ _ HK). unfold L3, L2, RA, RP. rewrite app_nil_r, E. incl_tac.
-    - eapply h_conseq; [apply (block_analogs_decl pr s0 (n1 :: nA') lA (nlen lA) (nlen lA) (nlen lA) (nlen lA) RP Fs0 SA); try (unfold RP; apart_tac2); try lia| |].
-      + unfold nlen. cbn [length]. lia.
-      + intros s HK. apply (KF_incl _ _ _ _ _ HK). unfold L2, RA, RP. incl_tac.
-      + intros a s HK. exact HK. }
+  (* the ANALOG group of a well-typed object holds parameters: the "nothing analog anywhere" shortcut is not taken *)
+  eapply h_bind; [apply (h_group_link [] pr nm_ANALOG nm_USED KInt1 L2); in_mand|]. intros ga0.
+  eapply h_bind.
+  { instantiate (1 := fun _ => KF [] pr L3). apply h_when.
+    - intros _. eapply h_conseq with (P' := KF [] pr L2) (Q' := fun _ => KF [] pr L3); [|intros s [HK _]; exact HK|auto].
+      (* number of channels *)
+      eapply h_bind.
+      { instantiate (1 := fun nan s => KF [] pr L2 s /\ nan = na). rewrite Fs0.
+        eapply h_bind; [apply (h_strs_of [] pr nm_ANALOG nm_LABELS L2); in_mand|]. intros l.
+        apply h_ret. intros s [HK [R _]]. split; [exact HK|].
+        assert (I : In (AL lA) L2) by (unfold L2, RA; cbn [In]; auto 10).
+        rewrite (Vstr_read _ _ _ _ (KF_holds _ _ _ _ _ HK I)) in R. injection R as <-.
+        apply wrap64_small. unfold two64. fold na. lia. }
+      intros nan. apply h_pre_pure. intros ->.
+      (* block 3: ANALOG *)
+      fold (analogs_block s0 nA na). destruct nA as [|n1 nA'].
+      + assert (E : na = nlen lA) by (unfold na, nlen; cbn [length]; lia).
+        eapply h_conseq; [apply (block_analogs_noop pr s0 [] na L2); unfold L2, RA; rewrite E; cbn [In]; auto 10|intros s HK; exact HK|].
+        intros a s HK. apply (KF_incl _ _ _ _ _ HK). unfold L3, L2, RA, RP. rewrite app_nil_r, E. incl_tac.
+      + eapply h_conseq; [apply (block_analogs_decl pr s0 (n1 :: nA') lA (nlen lA) (nlen lA) (nlen lA) (nlen lA) RP Fs0 SA); try (unfold RP; apart_tac2); try lia| |].
+        * unfold nlen. cbn [length]. lia.
+        * intros s HK. apply (KF_incl _ _ _ _ _ HK). unfold L2, RA, RP. incl_tac.
+        * intros a s HK. exact HK.
+    - intros E s [HK Hga0]. exfalso. apply Bool.negb_false_iff in E. unfold no_analog_anywhere in E.
+      apply andb_prop in E. destruct E as [E _]. apply andb_prop in E. destruct E as [E _].
+      destruct (param_of_group _ nm_ANALOG nm_USED KInt1 ga0 (KF_MT _ _ _ _ HK)) as [pi [p [Pi _]]]; [in_mand|exact Hga0|].
+      unfold param_idx in Pi. destruct (g_params ga0); [cbn in Pi; discriminate|unfold nlen in E; cbn in E; discriminate]. }
   intros u5.
   eapply h_conseq; [apply (st_update_header f_key f_tosize f_div f_key_nt f_tosize_nt (KF [] pr L3)); [apply KF_MT|apply KF_hdr]|intros s HK; exact HK|].
   intros a s HK. apply (KF_incl _ _ _ _ _ HK). unfold decl_post, L3, RP. fold np. fold na. incl_tac.
